@@ -483,7 +483,7 @@ def run(tier: str, seed: int, replay: str | None = None) -> int:
         for text, masked, strings, res in decl_log:
             dreqs.append(["c02.cut", text])
             dexp.append(["ok", masked, *strings])
-            dreqs.append(["c02.decl", text])
+            dreqs.append(["c02.decl", "1" if common.probe_init_eq_join() else "0", text])
             e = ["ok"]
             for nm, ini in res:
                 e += [nm, "N" if ini is None else "S" + ini]
@@ -491,8 +491,8 @@ def run(tier: str, seed: int, replay: str | None = None) -> int:
         for r, e, g in zip(dreqs, dexp, drv.batch(dreqs)):
             if e != g:
                 n_bad_corr += 1
-                rep.tie_broken(f"correspondence {r[0]}: model {g!r} vs implementation {e!r} on {r[1]!r}",
-                               {"stream": "program/" + r[0], "statement": r[1], "impl": e, "model": g})
+                rep.tie_broken(f"correspondence {r[0]}: model {g!r} vs implementation {e!r} on {r[-1]!r}",
+                               {"stream": "program/" + r[0], "statement": r[-1], "impl": e, "model": g})
         prog_hist["declarations_model_vs_impl"] = len(decl_log)
         # ---------------- junk stream (model vs implementation only)
         alpha = ["a", " ", "'", '"', "!", "&", ";", ">", "|", "*", "#", "!!", "!>", "!*", "!|", "x = 1"]
